@@ -357,6 +357,138 @@ func ruleOccursSite(c *Ctx, r *Report) {
 }
 
 // ---------------------------------------------------------------------------
+// R-OCCURS-DEEP (C02; added after seed C02b): the occurs check walks the whole term as it stands under the
+// environment: it recurses (a) into the referent of a bound variable, obtained from the environment, and
+// (b) into every argument of a compound (index not constant), and uses the results. A check that stops at
+// a bound variable misses X inside f(Y) with Y bound to g(X): unify_with_occurs_check builds a cyclic term.
+
+func ruleOccursDeep(c *Ctx, r *Report) {
+	const rule = "R-OCCURS-DEEP"
+	contains := c.fn("contains")
+	lookup := c.method("Env", "lookup")
+	resolve := c.method("Env", "Resolve")
+	if contains == nil || (lookup == nil && resolve == nil) {
+		r.undecided(rule, "anchor", "-", "locate contains, Env.lookup", "not found")
+		return
+	}
+	var viaBinding, viaArg ssa.Instruction
+	nrec := 0
+	eachInstr(contains, func(in ssa.Instruction) {
+		call, ok := in.(*ssa.Call)
+		if !ok || call.Call.StaticCallee() != contains || len(call.Call.Args) == 0 {
+			return
+		}
+		nrec++
+		if refs := call.Referrers(); refs == nil || len(*refs) == 0 {
+			return // result dropped
+		}
+		for _, l := range c.originSet(call.Call.Args[0]) {
+			cl, _ := callOfValue(l)
+			if cl == nil {
+				continue
+			}
+			switch {
+			case cl.Call.StaticCallee() != nil && (cl.Call.StaticCallee() == lookup || cl.Call.StaticCallee() == resolve):
+				viaBinding = in
+			case cl.Call.IsInvoke() && cl.Call.Method.Name() == "Arg":
+				if _, isConst := cl.Call.Args[0].(*ssa.Const); !isConst {
+					viaArg = in
+				}
+			}
+		}
+	})
+	key := fname(contains)
+	if viaBinding != nil {
+		r.ok(rule, key+"/through-binding", c.at(viaBinding), "the occurs check recurses into the referent of a bound variable", "recursive call on the value the environment holds for the variable", true)
+	} else {
+		r.bad(rule, key+"/through-binding", c.Pos(contains.Pos()), "the occurs check recurses into the referent of a bound variable", "no recursive call on a value obtained from the environment: the check stops at a bound variable and misses the variable inside its referent")
+	}
+	if viaArg != nil {
+		r.ok(rule, key+"/through-arguments", c.at(viaArg), "the occurs check recurses into every argument of a compound", "recursive call on Arg(i) with a computed index", true)
+	} else {
+		r.bad(rule, key+"/through-arguments", c.Pos(contains.Pos()), "the occurs check recurses into every argument of a compound", "no recursive call on Arg(i) with a computed index")
+	}
+	r.analysed(rule, fmt.Sprintf("%s: %d recursive calls", fname(contains), nrec))
+}
+
+// ---------------------------------------------------------------------------
+// R-FUNCTOR-ARITY (C01, C02, C10; added after seed C01b): a compound is identified by its name AND its
+// arity: foo(a) and foo(a,b) have nothing in common. Wherever the functor name of a compound is compared
+// (c.Functor() == …, c.functor == …), the arity of the same value is examined in the same function
+// (Arity() call or the length of its argument vector). A name-only match lets a clause head, a control
+// construct or a unification treat f/1 as f/2 - and then reads arguments that are not there.
+
+var functorArityAllow = map[string]string{
+	"engine.writeCompoundOpInfix": "spacing of ',' and '|' only; the caller dispatched on an infix operator and Arity()==2 (writeCompoundOp is selected by o.specifier.arity() == c.Arity())",
+}
+
+func ruleFunctorArity(c *Ctx, r *Report) {
+	const rule = "R-FUNCTOR-ARITY"
+	desc := "a functor-name comparison is paired with an examination of the same compound's arity"
+	n := 0
+	for _, fn := range c.LibFuncs() {
+		seen := map[string]int{}
+		eachInstr(fn, func(in ssa.Instruction) {
+			bo, ok := in.(*ssa.BinOp)
+			if !ok || (bo.Op != token.EQL && bo.Op != token.NEQ) {
+				return
+			}
+			for _, side := range []ssa.Value{bo.X, bo.Y} {
+				var recv ssa.Value
+				switch x := side.(type) {
+				case *ssa.Call:
+					switch {
+					case x.Call.IsInvoke() && x.Call.Method.Name() == "Functor":
+						recv = x.Call.Value
+					case x.Call.StaticCallee() != nil && x.Call.StaticCallee().Name() == "Functor" && x.Call.StaticCallee().Signature.Recv() != nil:
+						recv = x.Call.Args[0]
+					}
+				case *ssa.UnOp:
+					if fa, ok := x.X.(*ssa.FieldAddr); ok && x.Op == token.MUL && fieldName(fa) == "functor" && isEngNamed(deref(fa.X.Type()), "compound") {
+						recv = fa.X
+					}
+				}
+				if recv == nil {
+					continue
+				}
+				n++
+				base := fmt.Sprintf("%s/%s", fname(fn), stableName(recv))
+				seen[base]++
+				key := fmt.Sprintf("%s#%d", base, seen[base])
+				found := false
+				eachInstr(fn, func(in2 ssa.Instruction) {
+					switch y := in2.(type) {
+					case *ssa.Call:
+						if y.Call.IsInvoke() && y.Call.Method.Name() == "Arity" && (y.Call.Value == recv || c.sameVar(y.Call.Value, recv)) {
+							found = true
+						}
+						if f := y.Call.StaticCallee(); f != nil && f.Name() == "Arity" && f.Signature.Recv() != nil && len(y.Call.Args) > 0 && y.Call.Args[0] == recv {
+							found = true
+						}
+						if b, ok := y.Call.Value.(*ssa.Builtin); ok && b.Name() == "len" {
+							if u, ok := y.Call.Args[0].(*ssa.UnOp); ok {
+								if fa, ok := u.X.(*ssa.FieldAddr); ok && fa.X == recv && fieldName(fa) == "args" {
+									found = true
+								}
+							}
+						}
+					}
+				})
+				switch {
+				case found:
+					r.ok(rule, key, c.at(in), desc, "the arity of the same value is examined in this function", false)
+				case functorArityAllow[fname(fn)] != "":
+					r.ok(rule, key, c.at(in), desc, "confirmed by reading: "+functorArityAllow[fname(fn)], false)
+				default:
+					r.bad(rule, base, c.at(in), desc, "the name of "+valName(recv)+" is compared but its arity is never examined in this function: a compound of the same name and another arity matches")
+				}
+			}
+		})
+	}
+	r.analysed(rule, fmt.Sprintf("%d functor-name comparisons", n))
+}
+
+// ---------------------------------------------------------------------------
 // R-COMPOUND-UNIFORM: every non-struct representation of a compound (slice- or string-backed) is a
 // list cell: Functor() is the constant '.' atom and Arity() is 2.
 
